@@ -158,6 +158,31 @@ class ExprGen(object):
         self.ops[name] += 1
         return {name: arg}
 
+    def un(self, name, arg):
+        """an operator that takes one argument: now and then the argument comes as a one-item
+        argument list ({$abs: [x]}), rarely as a list of another length"""
+        x = self.r.random()
+        if x < 0.22:
+            return self.op(name, [arg])
+        if x < 0.235:
+            return self.op(name, self.r.choice([[], [arg, arg]]))
+        return self.op(name, arg)
+
+    def vari(self, name, args):
+        """an operator that takes any number of arguments: a single one may come bare"""
+        if len(args) == 1 and not isinstance(args[0], list) and self.r.random() < 0.45:
+            return self.op(name, args[0])
+        return self.op(name, args)
+
+    def numarg(self, d):
+        """an operand of an arithmetic operator: a number, now and then a boolean (rejected)"""
+        if self.r.random() < 0.05:
+            return self.sub('bool', d)
+        return self.sub('num', d)
+
+    VAR_NAMES_ODD = ['V', 'a.b', '', 'CURRENT', '_x', 'x-y', '1a', '\u00e9', 'a\u00e9', 'a_1', 'aB2',
+                     'this', 'ROOT', 'a b', 'v$']
+
     def field(self, t):
         r = self.r
         self.ops['$path'] += 1
@@ -263,12 +288,18 @@ class ExprGen(object):
 
     def g_let(self, t, d):
         names = self.r.sample(['v', 'w', 'p'], self.r.choice([1, 1, 2]))
+        if self.r.random() < 0.07:
+            names.append(self.r.choice(self.VAR_NAMES_ODD))     # some valid, most not
         vs = {}
         types = {}
         for n in names:
             vt = self.r.choice(['num', 'num', 'str', 'bool', 'arr', 'doc', 'date'])
-            vs[n] = self.sub(vt, max(d - 1, 0))
-            types[n] = vt
+            if self.r.random() < 0.12:
+                vs[n] = self.r.choice(['$zz', '$d.zz', '$$REMOVE'])   # bound to a missing value
+            else:
+                vs[n] = self.sub(vt, max(d - 1, 0))
+            if n in ('v', 'w', 'p'):
+                types[n] = vt
         saved = dict(self.vars)
         self.vars.update(types)
         try:
@@ -287,7 +318,9 @@ class ExprGen(object):
 
     def g_arrelem(self, t, d):
         at = 'sarr' if t == 'str' else 'arr'
-        idx = self.r.choice([0, 0, 1, 2, -1, 5]) if self.r.random() < 0.8 else self.sub('num', d)
+        idx = self.r.choice([0, 0, 1, 2, -1, 5]) if self.r.random() < 0.8 else self.numarg(d)
+        if self.r.random() < 0.03:
+            idx = self.r.choice([True, False, '$f'])
         return self.op('$arrayElemAt', [self.sub(at, d), idx])
 
     def g_literal(self, t, d):
@@ -308,11 +341,11 @@ class ExprGen(object):
     def n_nary(self, d):
         op = self.r.choice(['$add', '$add', '$multiply'])
         n = self.r.choice([1, 2, 2, 2, 3])
-        return self.op(op, [self.sub('num', d) for _ in range(n)])
+        return self.vari(op, [self.numarg(d) for _ in range(n)])
 
     def n_binary(self, d):
         op = self.r.choice(['$subtract', '$subtract', '$divide', '$mod', '$pow'])
-        a = self.sub('num', d)
+        a = self.numarg(d)
         if op == '$divide':
             b = self.r.choice([2, 4, 0.5, -2, 1, 8, 0.25]) if self.r.random() < 0.8 else \
                 self.sub('num', d)
@@ -327,7 +360,7 @@ class ExprGen(object):
     def n_unary(self, d):
         op = self.r.choice(['$abs', '$ceil', '$floor', '$trunc', '$abs', '$ceil', '$floor',
                             '$trunc', '$sqrt', '$exp', '$ln', '$log10'])
-        return self.op(op, self.sub('num', d))
+        return self.un(op, self.numarg(d))
 
     def n_size(self, d):
         return self.op('$size', self.sub(self.r.choice(['arr', 'arr', 'sarr']), d))
@@ -335,7 +368,7 @@ class ExprGen(object):
     def n_datepart(self, d):
         op = self.r.choice(['$year', '$month', '$dayOfMonth', '$hour', '$minute', '$second',
                             '$millisecond', '$dayOfWeek', '$dayOfYear', '$week'])
-        return self.op(op, self.sub('date', d))
+        return self.un(op, self.sub('date', d))
 
     def n_datediff(self, d):
         return self.op('$subtract', [self.sub('date', d), self.sub('date', d)])
@@ -393,10 +426,10 @@ class ExprGen(object):
 
     # -- str ------------------------------------------------------------------------------------
     def s_concat(self, d):
-        return self.op('$concat', [self.sub('str', d) for _ in range(self.r.choice([1, 2, 2, 3]))])
+        return self.vari('$concat', [self.sub('str', d) for _ in range(self.r.choice([1, 1, 2, 2, 3]))])
 
     def s_case(self, d):
-        return self.op(self.r.choice(['$toLower', '$toUpper']),
+        return self.un(self.r.choice(['$toLower', '$toUpper']),
                        self.sub('str' if self.r.random() < 0.85 else 'num', d))
 
     def s_substr(self, d):
@@ -405,7 +438,7 @@ class ExprGen(object):
         return self.op('$substr', [self.sub('str', d), first, ln])
 
     def s_tostring(self, d):
-        return self.op('$toString', self.sub(self.r.choice(['num', 'num', 'bool', 'str', 'date']),
+        return self.un('$toString', self.sub(self.r.choice(['num', 'num', 'bool', 'str', 'date']),
                                               d))
 
     p_str = generic('str') + [
@@ -427,11 +460,11 @@ class ExprGen(object):
     def b_logic(self, d):
         op = self.r.choice(['$and', '$or'])
         n = self.r.choice([0, 1, 2, 2, 2, 3])
-        return self.op(op, [self.sub('bool' if self.r.random() < 0.7 else 'any', d)
-                            for _ in range(n)])
+        return self.vari(op, [self.sub('bool' if self.r.random() < 0.7 else 'any', d)
+                              for _ in range(n)])
 
     def b_not(self, d):
-        return self.op('$not', self.sub('bool' if self.r.random() < 0.6 else 'any', d))
+        return self.un('$not', self.sub('bool' if self.r.random() < 0.6 else 'any', d))
 
     def b_in(self, d):
         if self.r.random() < 0.7:
@@ -439,7 +472,7 @@ class ExprGen(object):
         return self.op('$in', [self.sub('str', d), self.sub('sarr', d)])
 
     def b_is(self, d):
-        return self.op(self.r.choice(['$isNumber', '$isArray']), self.sub('any', d))
+        return self.un(self.r.choice(['$isNumber', '$isArray']), self.sub('any', d))
 
     def b_seteq(self, d):
         return self.op('$setEquals', [self.sub('arr', d) for _ in range(self.r.choice([2, 2, 3]))])
@@ -456,9 +489,9 @@ class ExprGen(object):
         return self.op('$concatArrays', [self.sub('arr', d) for _ in range(n)])
 
     def a_slice(self, d):
-        args = [self.sub('arr', d), self.r.choice([0, 1, 2, -1, -2, 5])]
+        args = [self.sub('arr', d), self.r.choice([0, 1, 2, -1, -2, 5, 5, True])]
         if self.r.random() < 0.4:
-            args.append(self.r.choice([1, 2, 3]))
+            args.append(self.r.choice([1, 2, 3, 3, False, True]))
         return self.op('$slice', args)
 
     def bind(self, name, t):
@@ -468,6 +501,8 @@ class ExprGen(object):
 
     def a_map(self, d):
         name = self.r.choice(['this', 'v', 'e'])
+        if self.r.random() < 0.05:
+            name = self.r.choice(self.VAR_NAMES_ODD)
         spec = {'input': self.sub('arr', d)}
         if name != 'this' or self.r.random() < 0.3:
             spec['as'] = name
@@ -480,6 +515,8 @@ class ExprGen(object):
 
     def a_filter(self, d):
         name = self.r.choice(['this', 'v', 'e'])
+        if self.r.random() < 0.05:
+            name = self.r.choice(self.VAR_NAMES_ODD)
         spec = {'input': self.sub('arr', d)}
         if name != 'this' or self.r.random() < 0.3:
             spec['as'] = name
@@ -491,9 +528,26 @@ class ExprGen(object):
         return self.op('$filter', spec)
 
     def a_union(self, d):
-        return self.op('$setUnion', [self.sub('arr', d) for _ in range(self.r.choice([1, 2, 2, 3]))])
+        return self.vari('$setUnion', [self.sub('arr', d) for _ in range(self.r.choice([1, 2, 2, 3]))])
 
-    p_arr = generic('arr') + [
+    def a_lit(self, d):
+        """an array literal whose items are expressions (a missing value gives a null item)"""
+        self.ops['[array]'] += 1
+        n = self.r.choice([0, 1, 2, 2, 3])
+        return [self.sub('num' if self.r.random() < 0.8 else 'any', d) for _ in range(n)]
+
+    def sa_lit(self, d):
+        self.ops['[array]'] += 1
+        return [self.sub('str', d) for _ in range(self.r.choice([0, 1, 2, 3]))]
+
+    def y_lit(self, d):
+        """an array literal of anything, arrays and documents with expressions inside included"""
+        self.ops['[array]'] += 1
+        n = self.r.choice([1, 2, 2, 3])
+        return [self.sub(self.r.choice(['num', 'str', 'bool', 'any', 'arr', 'doc', 'date']), d)
+                for _ in range(n)]
+
+    p_arr = generic('arr') + [(2.5, a_lit), 
         (3.0, a_concat), (2.0, a_slice), (3.0, a_map), (3.0, a_filter), (1.5, a_union),
     ]
 
@@ -513,7 +567,7 @@ class ExprGen(object):
             self.vars = saved
         return self.op('$map', spec)
 
-    p_sarr = generic('sarr') + [(3.0, sa_split), (2.0, sa_map)]
+    p_sarr = generic('sarr') + [(3.0, sa_split), (2.0, sa_map), (1.5, sa_lit)]
 
     # -- date, doc, any -------------------------------------------------------------------------
     def d_sub(self, d):
@@ -552,7 +606,7 @@ class ExprGen(object):
     def y_o2a(self, d):
         return self.op('$objectToArray', self.sub('doc', d))
 
-    p_any = [(10.0, y_any), (0.5, y_o2a), (1.2, y_group)]
+    p_any = [(10.0, y_any), (0.5, y_o2a), (1.2, y_group), (0.8, y_lit)]
 
     # -- anomalies: ill-typed, malformed, unknown, not implemented ---------------------------------
     def anomalous(self, t, d):
